@@ -349,12 +349,16 @@ func c10Live(c *Ctx) {
 	for _, spec := range [][3]string{
 		{"", "UTransport", "dial"}, {"", "UTransport", "doDial"}, {"", "uPacketPacker", "PackCoalescedPacket"}, {"", "uPacketPacker", "appendInitialPacketPayload"},
 		{"", "uPacketPacker", "planInitialFlight"}, {"", "uPacketPacker", "flightBudgets"}, {"", "uPacketPacker", "MarshalInitialPacketPayload"},
-		{"", "InitialPacketSpec", "initialPN"}, {"", "InitialPacketSpec", "getTokenStore"}, {"", "InitialPacketSpec", "tokenLength"}, {"", "InitialPacketSpec", "planFor"},
+		{"", "InitialPacketSpec", "initialPN"}, {"", "InitialPacketSpec", "getTokenStore"}, {"", "InitialPacketSpec", "planFor"},
 		{"", "InitialPacketSpec", "UpdateConfig"},
 	} {
 		root = append(root, c.fn(spec[0], spec[1], spec[2]))
 	}
 	root = append(root, c.funcVar("", "newUClientConnection"))
+	// tokenLength is a one-line helper of getTokenStore that may be inlined away
+	if f, err := c.P.Func1("", "InitialPacketSpec", "tokenLength"); err == nil {
+		root = append(root, f)
+	}
 	reads := func(fld *types.Var) []string {
 		var where []string
 		for _, r := range root {
